@@ -638,7 +638,8 @@ public:
     if (nslots < 1) nslots = 1;
     int maxops = g.tier ? 12 : 9;
     p.params = {c18 ? 1 : 0, c17 ? 1 : 0, c02 ? 1 : 0};
-    if (c17 || (c02 && g.rng.chance(60))) {
+    bool plain = !c18 && !c17 && !c02 && !c15; // C01 / C03 / C16 programs: exits and adoption matter there too
+    if (c17 || (c02 && g.rng.chance(60)) || (plain && g.rng.chance(35))) {
       // generations: G x up to 3 overlapping threads; later threads start while earlier ones exit
       int G = c17 ? (g.rng.chance(50) ? 3 : 6) : 3;
       int per = g.rng.range(1, 3);
